@@ -3,7 +3,7 @@
    tr_Parse_build) - computes the hand-written C18 model Endpoint.Parse.build, for every protocol string and every
    value of the flag variables. Not covered by the translation: strings.Fields, the flag package (modelled by hand,
    tied by correspondence) and the cache key e.String() assigned after the translated statements. *)
-From Coq Require Import List NArith ZArith Bool Lia.
+From Coq Require Import List NArith ZArith Bool Lia ZifyBool.
 From TarsV Require Import Base.Hex Endpoint.Parse Xlate.GoSem Xlate.GoSemFacts Gen.Translated.
 Import ListNotations.
 Open Scope Z_scope.
@@ -26,14 +26,14 @@ Theorem tr_Parse_build_equiv : forall (pr0 : list N) (st : fstate),
   tr_Parse_build pr0 (f_h st) (f_b st) (f_p st) (f_t st) (f_g st) (f_q st) (f_w st) (f_v st) (f_e st)
   = Next (go_of_ep (build pr0 st)).
 Proof.
-  intros pr0 st. unfold tr_Parse_build, build. fold_bool.
-  rewrite !go_bytes_eqb_model. fold s_tcp. fold s_ssl.
-  rewrite (Z.gtb_ltb (f_w st) 100).
-  destruct (bytes_eqb pr0 s_tcp) eqn:Et.
-  - apply bytes_eqb_eq in Et. subst pr0.
-    destruct (negb (f_v st =? 0) && ((f_w st =? -1) || (100 <? f_w st)))%bool; reflexivity.
-  - destruct (bytes_eqb pr0 s_ssl);
-      destruct (negb (f_v st =? 0) && ((f_w st =? -1) || (100 <? f_w st)))%bool; reflexivity.
+  intros pr0 st. unfold tr_Parse_build, build.
+  rewrite !go_bytes_eqb_model. fold s_tcp. fold s_ssl. rewrite (Z.gtb_ltb (f_w st) 100).
+  (* the model's cases ... *)
+  destruct (bytes_eqb pr0 s_tcp) eqn:Et; [apply bytes_eqb_eq in Et; subst pr0|];
+    [|destruct (bytes_eqb pr0 s_ssl) eqn:Es];
+    destruct (negb (f_v st =? 0) && ((f_w st =? -1) || (100 <? f_w st)))%bool eqn:Ew;
+    (* ... and whatever conditions the translated code tests: they agree or the case is contradictory *)
+    fold_bool; split_ifs; cbn [bindc]; try reflexivity; exfalso; lia.
 Qed.
 
 (* every field the model's endpoint has, except the key, is the one the translated code computes *)
